@@ -4,6 +4,10 @@ import (
 	"bytes"
 	"fmt"
 	"io"
+	"strconv"
+	"strings"
+
+	gowarc "github.com/nlnwa/gowarc/v2"
 )
 
 // onceFailWriter accepts `at` bytes in total, fails ONCE on the write that would go beyond them (after taking the part
@@ -46,3 +50,56 @@ func writeFaultCheck(full []byte, ser func(w io.Writer) (int64, error)) string {
 	}
 	return ""
 }
+
+// wfault <fields> <budget>: the fields are added through the API and written to a writer that fails once after <budget>
+// bytes: the count Write returns, whether it returns an error, and what reached the writer (model: Fields.writeTo,
+// theorem C19_write_all_or_error)
+func kWfault(args []string) (string, string) {
+	wf := &gowarc.WarcFields{}
+	if args[0] != "-" {
+		for _, kv := range strings.Split(args[0], ",") {
+			f := strings.Split(kv, ":")
+			wf.Add(unhxs(f[0]), unhxs(f[1]))
+		}
+	}
+	budget, _ := strconv.Atoi(args[1])
+	full := wf.String()
+	fw := &onceFailWriter{at: budget}
+	n, err := wf.Write(fw)
+	oracle := "ok"
+	if err == nil && (fw.got.String() != full || n != int64(len(full))) {
+		oracle = fmt.Sprintf("VIOL api-roundtrip-write-fault no error, count=%d, %d of %d bytes reached the writer", n, fw.got.Len(), len(full))
+	}
+	if err != nil && (int64(fw.got.Len()) != n || !strings.HasPrefix(full, fw.got.String())) {
+		oracle = fmt.Sprintf("VIOL api-roundtrip-write-count error returned with count=%d but %d bytes reached the writer", n, fw.got.Len())
+	}
+	return fmt.Sprintf("n=%d err=%s got=%d:%s", n, tf(err != nil), fw.got.Len(), hx(fw.got.Bytes())), oracle
+}
+
+func genWfault(r *rng, n int, emit func(string, ...string)) {
+	names := []string{"WARC-Type", "warc-date", "X-Foo", "Content-Length", "WARC-Target-URI", "x", "WARC-Record-ID"}
+	for i := 0; i < n; i++ {
+		var l []string
+		total := 0
+		for k := r.rangeInt(0, 6); k > 0; k-- {
+			nm := pick(r, names)
+			v := string(r.bytes(r.intn(30)))
+			v = strings.Map(func(c rune) rune {
+				if c == '\r' || c == '\n' {
+					return 'x'
+				}
+				return c
+			}, v)
+			l = append(l, hxs(nm)+":"+hxs(v))
+			total += len(nm) + len(v) + 4
+		}
+		arg := "-"
+		if len(l) > 0 {
+			arg = strings.Join(l, ",")
+		}
+		emit("wfault", arg, strconv.Itoa(r.intn(total+3)))
+		stat("wfault", "case")
+	}
+}
+
+func init() { kinds["wfault"] = kWfault }
